@@ -99,7 +99,8 @@ def compare(fl, st, specified, with_tr):
             s_want = 1.0 / np.sqrt(r["tau"])
             if not np.isclose(float(fl.S[i].item()), s_want, rtol=1e-12):
                 bad.append("C12.record_sd")
-        if int(fl.n_evals[i].item()) != r["n"]:
+        nv = float(np.asarray(fl.n_evals[i]).ravel()[0])
+        if not (np.isfinite(nv) and int(nv) == r["n"]):
             bad.append("C12.nevals_exact")
         if not bool(fl.X_flag[i]):
             bad.append("C12.record_flag")
@@ -125,7 +126,14 @@ def replay_hist(hist, states_by_hist, specified, with_tr, verdict, counters):
         if st is None:
             continue
         counters["compared"] += 1
-        for clause in compare(fl, st, specified, with_tr):
+        try:
+            clauses = compare(fl, st, specified, with_tr)
+        except Exception as e:      # the logger's state cannot even be read as a log: a violation, not a harness failure
+            verdict.violation("C12.log_state_malformed", site=f"FuncLog:{op[0]}",
+                              where=f"hist={hist[:k + 1]} specified={specified} tr={with_tr}",
+                              detail={"error": repr(e)[:200]})
+            return
+        for clause in clauses:
             verdict.violation(clause, site=f"FuncLog:{op[0]}",
                               where=f"hist={hist[:k + 1]} specified={specified} tr={with_tr}",
                               detail={"spec_log": st["log"], "Xn": fl.Xn,
